@@ -55,7 +55,8 @@ type Stage struct {
 	Pkg          string   // package pattern relative to Dir, e.g. "./pkg/station/lib"
 	Run          string   // -test.run regexp
 	Race         bool     // build with -race; race reports are harvested from the log
-	Drivers      []string // driver directories to overlay (kit and export/* are always added)
+	Drivers      []string // driver directories to overlay (the kit is always added)
+	Exports      []string // export shims to inject: names under drivers/export/ (e.g. "lib", "dtls")
 	Files        []string // extra file-name substrings to select in the driver dirs (default: the property id)
 	Env          []string
 	Netns        bool // run inside `unshare -n` with lo up
@@ -134,11 +135,9 @@ func (rc *RunCtx) overlay(st *Stage) (string, error) {
 	if err := add("kit", nil); err != nil {
 		return "", err
 	}
-	for drv := range driverPkg {
-		if strings.HasPrefix(drv, "export/") {
-			if err := add(drv, nil); err != nil {
-				return "", err
-			}
+	for _, x := range st.Exports {
+		if err := add("export/"+x, nil); err != nil {
+			return "", err
 		}
 	}
 	id := strings.ToLower(rc.Prop.ID)
